@@ -121,9 +121,11 @@ struct NpbNode { body_id: u16, link_index: i16, bones: Vec<(String, [f32; 12])> 
 struct NpbLink { parent: i16, first_child: i16, next_sibling: i16, deformer: u16 }
 fn npb_matrix(seed: f32) -> [f32; 12] { let mut m = [0.0f32; 12]; for (i, v) in m.iter_mut().enumerate() { *v = seed + i as f32 * 0.25; } m }
 /// a deformer file packed by hand: count, items (body id, link index, data offset, 4 pad bytes), links, then one blob per item (bone count, name offsets, padding, 4x3 matrices, names)
-fn npb_file(nodes: &[NpbNode], links: &[NpbLink]) -> Vec<u8> {
+fn npb_file(nodes: &[NpbNode], links: &[NpbLink]) -> Vec<u8> { npb_file_shift(nodes, links, 0) }
+/// the same file with `shift` filler bytes between the tables and the first blob (the items carry absolute blob offsets, so blobs may start at any file offset)
+fn npb_file_shift(nodes: &[NpbNode], links: &[NpbLink], shift: usize) -> Vec<u8> {
     let count = nodes.len();
-    let tables_end = 4 + count * 12 + links.len() * 8;
+    let tables_end = 4 + count * 12 + links.len() * 8 + shift;
     let mut blobs: Vec<Vec<u8>> = vec![]; let mut offsets = vec![]; let mut at = tables_end;
     for node in nodes {
         let n = node.bones.len(); let pad = if n & 1 != 0 { 2 } else { 0 };
@@ -143,6 +145,7 @@ fn npb_file(nodes: &[NpbNode], links: &[NpbLink]) -> Vec<u8> {
     out.extend_from_slice(&(count as i32).to_le_bytes());
     for (node, off) in nodes.iter().zip(&offsets) { out.extend_from_slice(&node.body_id.to_le_bytes()); out.extend_from_slice(&node.link_index.to_le_bytes()); out.extend_from_slice(&(*off as i32).to_le_bytes()); out.extend_from_slice(&[0u8; 4]); }
     for l in links { out.extend_from_slice(&l.parent.to_le_bytes()); out.extend_from_slice(&l.first_child.to_le_bytes()); out.extend_from_slice(&l.next_sibling.to_le_bytes()); out.extend_from_slice(&l.deformer.to_le_bytes()); }
+    out.extend(std::iter::repeat(0xEEu8).take(shift));
     for b in &blobs { out.extend_from_slice(b); }
     out
 }
@@ -161,7 +164,7 @@ fn npb_forest(parents: &[usize], perm: &[usize], nbones: &[usize]) -> (Vec<NpbNo
     (nodes, links)
 }
 
-//@unit props=C16 label=B tier=quick native=1 fn=pbd::PreBoneDeformer::{from_existing,get_deform_matrices} bound="by execution: 4 forests of 1..7 body ids (chains, a two-level tree, two roots) x 3 orders of the link table (same as the items, reversed, rotated) with 0..3 bones per node: every ordered pair of body ids whose start node has a next sibling"
+//@unit props=C16 label=B tier=quick native=1 fn=pbd::PreBoneDeformer::{from_existing,get_deform_matrices} bound="by execution: 4 forests of 1..7 body ids (chains, a two-level tree, two roots) x 3 orders of the link table (same as the items, reversed, rotated) with 0..3 bones per node x blobs starting at file offsets 0, 1, 2, 3 mod 4: every ordered pair of body ids whose start node has a next sibling"
 //@desc the matrices returned between two body ids are the named 4x3 matrices stored along the parent chain from the start node up to (not including) the target, or up to and including the root when the target is not an ancestor; names and matrices are the stored ones, in chain order; equal ids yield nothing
 #[test]
 fn native_pbd_chain() {
@@ -174,7 +177,8 @@ fn native_pbd_chain() {
             let perm: Vec<usize> = (0..n).map(|i| match order { 0 => i, 1 => n - 1 - i, _ => (i + 2) % n }).collect();
             let nbones: Vec<usize> = (0..n).map(|i| (i + order) % 4).collect();
             let (nodes, links) = npb_forest(parents, &perm, &nbones);
-            let pbd = PreBoneDeformer::from_existing(&npb_file(&nodes, &links)).expect("a well-formed deformer parses");
+            for shift in [0usize, 2, 1, 3] {
+            let pbd = PreBoneDeformer::from_existing(&npb_file_shift(&nodes, &links, shift)).expect("a well-formed deformer parses");
             for from in 0..n { for to in 0..n {
                 let got = pbd.get_deform_matrices(nodes[from].body_id, nodes[to].body_id);
                 if from == to { assert!(got.is_none(), "equal body ids yield nothing"); cases += 1; continue; }
@@ -182,9 +186,10 @@ fn native_pbd_chain() {
                 let mut want: Vec<(String, [f32; 12])> = vec![]; let mut cur = from;
                 loop { want.extend(nodes[cur].bones.iter().cloned()); if parents[cur] == m { break; } cur = parents[cur]; if cur == to { break; } }
                 let got: Vec<(String, [f32; 12])> = got.expect("a start node with a sibling link yields matrices").bones.iter().map(|b| (b.name.clone(), b.deform)).collect();
-                assert_eq!(got, want, "chain from {} to {} (forest of {n}, link order {order})", nodes[from].body_id, nodes[to].body_id);
+                assert_eq!(got, want, "chain from {} to {} (forest of {n}, link order {order}, blobs at file offset {shift} mod 4)", nodes[from].body_id, nodes[to].body_id);
                 cases += 1;
             } }
+            }
         }
     }
     println!("NATIVE native_pbd_chain cases={cases}");
